@@ -229,6 +229,16 @@ impl E {
     }
 }
 
+thread_local! {
+    /// added (mod NV) to every variable index the tree generator draws: the same choices give
+    /// the same expression over other variables
+    static VOFF: std::cell::Cell<usize> = std::cell::Cell::new(0);
+}
+
+fn var_ix(ch: &mut Choices) -> usize {
+    (ch.below(NV) + VOFF.with(|v| v.get())) % NV
+}
+
 /// (operation, variable index, small coefficient) for each step of a running sum; the variable
 /// sequence favours runs, returns to earlier variables, and ends on any of them
 fn chain_steps(n: usize, sd: u64) -> impl Iterator<Item = (u8, usize, u64)> {
@@ -244,10 +254,27 @@ fn chain_steps(n: usize, sd: u64) -> impl Iterator<Item = (u8, usize, u64)> {
     })
 }
 
+/// term lists whose coefficients form a geometric progression c, c·k, c·k², … (bit weights and the
+/// like), to be scaled by the ratio k afterwards
+fn gen_geometric(ch: &mut Choices) -> (Vec<(usize, ScalarSpec)>, ScalarSpec) {
+    let k = 2 + ch.below(4) as u64;
+    let n = 2 + ch.below(5);
+    let c0 = 1 + ch.below(3) as u64;
+    let same_var = ch.chance(60);
+    let v0 = var_ix(ch);
+    let mut c = c0;
+    let mut t = vec![];
+    for j in 0..n {
+        t.push((if same_var { v0 } else { (v0 + j) % NV }, ScalarSpec::Small(c)));
+        c *= k;
+    }
+    (t, ScalarSpec::Small(k))
+}
+
 fn gen_terms(ch: &mut Choices) -> Vec<(usize, ScalarSpec)> {
     // now and then a very long term list
     let n = if ch.chance(6) { 100 + ch.below(400) } else { ch.below(5) };
-    (0..n).map(|_| (ch.below(NV), if ch.chance(30) { ScalarSpec::Zero } else { ScalarSpec::gen(ch) })).collect()
+    (0..n).map(|_| (var_ix(ch), if ch.chance(30) { ScalarSpec::Zero } else { ScalarSpec::gen(ch) })).collect()
 }
 
 fn gen_tree(ch: &mut Choices, depth: usize) -> E {
@@ -265,31 +292,44 @@ fn gen_tree(ch: &mut Choices, depth: usize) -> E {
                 };
                 E::Chain(n, ch.u16() as u64)
             }
-            0 => E::Var(ch.below(NV)),
+            0 => E::Var(var_ix(ch)),
             1 => E::Const(ScalarSpec::gen(ch)),
             2 => E::Default,
             3 => E::FromIterOwned(gen_terms(ch)),
             4 => E::FromIterRef(gen_terms(ch)),
-            5 => E::VarNeg(ch.below(NV)),
-            6 => E::VarMul(ch.below(NV), ScalarSpec::gen(ch)),
-            7 => E::VarMulU64(ch.below(NV), ch.byte() as u64),
-            8 => E::VarAddVar(ch.below(NV), ch.below(NV)),
-            9 => E::VarSubVar(ch.below(NV), ch.below(NV)),
-            10 => E::VarAddConst(ch.below(NV), ScalarSpec::gen(ch)),
-            _ => E::VarSubConst(ch.below(NV), ScalarSpec::gen(ch)),
+            5 => E::VarNeg(var_ix(ch)),
+            6 => E::VarMul(var_ix(ch), ScalarSpec::gen(ch)),
+            7 => E::VarMulU64(var_ix(ch), ch.byte() as u64),
+            8 => E::VarAddVar(var_ix(ch), var_ix(ch)),
+            9 => E::VarSubVar(var_ix(ch), var_ix(ch)),
+            10 => E::VarAddConst(var_ix(ch), ScalarSpec::gen(ch)),
+            _ => E::VarSubConst(var_ix(ch), ScalarSpec::gen(ch)),
         };
     }
     let d = depth - 1;
+    if ch.chance(12) {
+        // (c·x₀ + c·k·x₁ + c·k²·x₂ + …) · k, also negated / through the u64 operator
+        let (t, k) = gen_geometric(ch);
+        let inner = if ch.chance(128) { E::FromIterOwned(t) } else { E::FromIterRef(t) };
+        return match ch.below(3) {
+            0 => E::Mul(Box::new(inner), k),
+            1 => E::Neg(Box::new(E::Mul(Box::new(inner), k))),
+            _ => match k {
+                ScalarSpec::Small(kk) => E::MulU64(Box::new(inner), kk),
+                _ => unreachable!(),
+            },
+        };
+    }
     match ch.below(11) {
-        0 => E::VarAdd(ch.below(NV), Box::new(gen_tree(ch, d))),
-        1 => E::VarSub(ch.below(NV), Box::new(gen_tree(ch, d))),
+        0 => E::VarAdd(var_ix(ch), Box::new(gen_tree(ch, d))),
+        1 => E::VarSub(var_ix(ch), Box::new(gen_tree(ch, d))),
         2 => E::Neg(Box::new(gen_tree(ch, d))),
         3 => E::Mul(Box::new(gen_tree(ch, d)), ScalarSpec::gen(ch)),
         4 => E::MulU64(Box::new(gen_tree(ch, d)), ch.byte() as u64),
         5 => E::Add(Box::new(gen_tree(ch, d)), Box::new(gen_tree(ch, d))),
         6 => E::Sub(Box::new(gen_tree(ch, d)), Box::new(gen_tree(ch, d))),
-        7 => E::AddVar(Box::new(gen_tree(ch, d)), ch.below(NV)),
-        8 => E::SubVar(Box::new(gen_tree(ch, d)), ch.below(NV)),
+        7 => E::AddVar(Box::new(gen_tree(ch, d)), var_ix(ch)),
+        8 => E::SubVar(Box::new(gen_tree(ch, d)), var_ix(ch)),
         9 => E::AddConst(Box::new(gen_tree(ch, d)), ScalarSpec::gen(ch)),
         _ => E::SubConst(Box::new(gen_tree(ch, d)), ScalarSpec::gen(ch)),
     }
@@ -404,7 +444,20 @@ fn case<G: CurveTag>(bytes: &[u8], col: &mut Collector, max_depth: usize) -> Res
     w[10] = Fr::<G>::one();
     let blinds: [Fr<G>; 2] = [ScalarSpec::Rand(ch.byte() as u64).to_f(), ScalarSpec::Rand(1000 + ch.byte() as u64).to_f()];
     let ntrees = 4 + ch.below(5);
-    let trees: Vec<E> = (0..ntrees).map(|_| { let d = 1 + ch.below(max_depth); gen_tree(&mut ch, d) }).collect();
+    // now and then a row is followed by its twin: the same spelling and coefficients over other variables
+    let mut trees: Vec<E> = vec![];
+    while trees.len() < ntrees {
+        let d = 1 + ch.below(max_depth);
+        let twin = ch.chance(40);
+        let mut fork = ch.fork();
+        trees.push(gen_tree(&mut ch, d));
+        if twin && trees.len() < ntrees {
+            VOFF.with(|v| v.set(1 + trees.len() % 7));
+            let t2 = gen_tree(&mut fork, d);
+            VOFF.with(|v| v.set(0));
+            trees.push(t2);
+        }
+    }
     let delta = ScalarSpec::gen_nonzero(&mut ch);
     let bad_idx = ch.below(ntrees);
     let seed = ch.u16() as u64;
